@@ -754,7 +754,7 @@ class LMDBStorage(BaseStorage):
 
 class Subscription(BaseSubscription):
     def prepare(self):
-        self.query = planner(self.filters, log=self.log)
+        self.query = planner(self.filters, log=self.log, max_limit=self.default_limit)
         return bool(self.query)
 
     async def run_query(self):
@@ -843,7 +843,11 @@ class KVGarbageCollector(BaseGarbageCollector):
 
 
 def planner(
-    filters: list[NostrQuery], default_limit=None, log=None, maximum_plans=5
+    filters: list[NostrQuery],
+    default_limit=None,
+    log=None,
+    maximum_plans=5,
+    max_limit=None,
 ) -> QueryPlans:
     """
     Create a list of QueryPlans for the the list of REQ filters
@@ -941,11 +945,14 @@ def planner(
                 log.info("No range scans allowed %s", query_items)
             continue
 
+        limit = default_limit or query.limit
+        if max_limit is not None and (limit is None or limit > max_limit):
+            limit = max_limit
         plan = QueryPlan(
             query_items,
             best_index,
             matches,
-            default_limit or query.limit,
+            limit,
             query.since,
             query.until,
             {},
